@@ -197,7 +197,8 @@ func init() {
 // (the empty key is a key like any other; it is selected by bit 6 of a store mask)
 var c01Keys = []string{"a", "ab", "abb", "b", "ba", "c", ""}
 var c01NumVals = []string{"1", "2", "10", "1", "2", "10", "2"}
-var c01MixVals = []string{"a", "1", "ab", "2", "a", "10", "b"}
+// (key b holds the empty value: stored, but of length 0)
+var c01MixVals = []string{"a", "1", "ab", "", "a", "10", "b"}
 
 // subsetStore: the sub-store of c01Keys selected by mask with the given values.
 func subsetStore(mask int, vals []string) []store.Pair {
